@@ -21,7 +21,7 @@ from mc import ufo_build as B
 from mc.explore import Property, Result, digest, violation
 from mc.outline_ref import otround
 
-GLYPHS = ["a", "b", "c", "acutecomb", "h"]
+GLYPHS = ["a", "b", "c", "acutecomb", "h", "k"]
 G1, G2 = "public.kern1.A", "public.kern2.B"
 KV = [None, -20, -50]
 TOPOLOGIES = {
@@ -35,7 +35,7 @@ TOPOLOGIES = {
 ANCHOR_PAL = [(250, 600), (260.5, 640), (300, 700.5), (240, 590)]
 
 
-def master_spec(i, kcc, kgg, anchor):
+def master_spec(i, kcc, kgg, anchor, khalf=None):
     d = 20 * i
     glyphs = {
         ".notdef": {"width": 500, "contours": [B.box(50, 0, 450, 700)]},
@@ -46,6 +46,10 @@ def master_spec(i, kcc, kgg, anchor):
         "c": {"width": 540, "unicodes": [0x63], "components": [("a", (1, 0, 0, 1, 10 + d, 0))]},
         "acutecomb": {"width": 0, "unicodes": [0x301], "contours": [B.box(-20, 500, 20 + d, 560)],
                       "anchors": [("_top", 0, 500 + i)]},
+        # a pure composite whose component is an identity reference in the first master and carries a
+        # 2x2 in the later ones (the masters must be decomposed jointly)
+        "k": {"width": 570 + d, "unicodes": [0x6B],
+              "components": [("b", (1, 0, 0, 1, 30, 0) if i == 0 else (1.25, 0, 0, 1.25, 30, 0))]},
         # a node lying exactly on a horizontal edge in the first master and displaced in the others
         # and a curve that is flat in the first master only:
         # compatible point-for-point, but reducible by a per-master charstring optimiser
@@ -60,6 +64,8 @@ def master_spec(i, kcc, kgg, anchor):
         kerning.append((G1, G2, kcc))
     if kgg is not None:
         kerning.append(("a", "b", kgg))
+    if khalf is not None:
+        kerning.append(("c", G2, khalf))  # glyph-to-group exception of the class pair
     return {"glyphs": glyphs, "order": list(glyphs), "groups": {G1: ["a", "c"], G2: ["b"]}, "kerning": kerning,
             "info": {"styleName": f"M{i}"}}
 
@@ -78,7 +84,9 @@ def build_ds(c):
     for mi, (loc, kind) in enumerate(masters):
         if kind == "full":
             kcc, kgg = c["kern"][fi]
-            spec = master_spec(mi, KV[kcc], KV[kgg], ANCHOR_PAL[c["anchors"][fi] % len(ANCHOR_PAL)])
+            kh = c.get("half", [0] * 8)[fi]
+            spec = master_spec(mi, KV[kcc], KV[kgg], ANCHOR_PAL[c["anchors"][fi] % len(ANCHOR_PAL)],
+                               khalf=[None, -35][kh])
             fi += 1
             specs.append(spec)
             sources.append({"spec": spec, "location": loc, "name": f"m{mi}", "share": f"m{mi}"})
@@ -168,6 +176,11 @@ class C10(Property):
                             anchors = [0, 1, 2, 3][:nfull] if (kern[0][0] + kern[-1][1]) % 2 else [0] * nfull
                             out.append([{"topo": topo, "kern": [list(k) for k in kern], "anchors": anchors,
                                          "flavour": fl, "vf": vf, "axis_map": amap}])
+                            if nfull == 2 and amap is False:
+                                # the half-class exception present in the first, the second or both masters
+                                for half in ([1, 0], [0, 1], [1, 1]):
+                                    out.append([{"topo": topo, "kern": [list(k) for k in kern], "anchors": anchors,
+                                                 "flavour": fl, "vf": vf, "axis_map": amap, "half": half}])
                             if fl == "cff2" and kern == kerns[0]:
                                 out.append([{"topo": topo, "kern": [list(k) for k in kern], "anchors": anchors,
                                              "flavour": fl, "vf": vf, "axis_map": amap, "opt0": True}])
